@@ -25,6 +25,9 @@ type Sources struct {
 	Opaque  []ssa.Value        // values the slice could not look through
 	// Followed (deep provenance only): repository callees whose returned values were followed instead of their arguments
 	Followed map[*types.Func]bool
+	// LeafParams (deep provenance only): parameters at which the walk stopped (inputs of the component: exported entry
+	// points, dynamically invoked closures, functions without known callers)
+	LeafParams map[*ssa.Parameter]bool
 }
 
 // UnfollowedCalls: the callees whose result is a source in its own right (not looked through).
@@ -40,7 +43,7 @@ func (s *Sources) UnfollowedCalls() []*types.Func {
 
 func newSources() *Sources {
 	return &Sources{Params: map[*ssa.Parameter]bool{}, Fields: map[*types.Var]bool{}, Calls: map[*types.Func]bool{}, CallIns: map[*ssa.Call]bool{},
-		Consts: map[string]bool{}, Globals: map[*ssa.Global]bool{}, Allocs: map[*ssa.Alloc]bool{}, Values: map[ssa.Value]bool{}, Followed: map[*types.Func]bool{}}
+		Consts: map[string]bool{}, Globals: map[*ssa.Global]bool{}, Allocs: map[*ssa.Alloc]bool{}, Values: map[ssa.Value]bool{}, Followed: map[*types.Func]bool{}, LeafParams: map[*ssa.Parameter]bool{}}
 }
 
 // ProvOpts tunes the slice.
